@@ -1132,10 +1132,16 @@ pub(crate) fn pad(ident: usize, f: &mut fmt::Formatter<'_>) -> fmt::Result {
 
 /// For backwards compatibility
 pub fn get_root_node_struct(data: &[u8]) -> Result<TLVElement<'_>, Error> {
-    // TODO: Check for trailing data
     let element = TLVElement::new(data);
 
     element.structure()?;
+
+    // The structure has to be complete - closed by its end-of-container marker - and
+    // nothing may follow it: the bytes of a message that are not part of the structure
+    // would otherwise be accepted unseen (e.g. into a handshake transcript hash)
+    if TLVSequence(data).container_len()? != data.len() {
+        Err(ErrorCode::TLVTypeMismatch)?;
+    }
 
     Ok(element)
 }
